@@ -457,6 +457,36 @@ def run_resuming(rep, name, exe, lines, metas, env=None, timeout=300, pid="C10")
         start = k + 1
     return out
 
+def status_pairs(rep, exe):
+    """what a writer reports for an entry must not get better when something unrelated is added to the entry, or when
+    the entry is the first one with data: the same entry with a name the format cannot take as it is (bytes that are
+    not UTF-8, in a UTF-8 locale) alone, with an ACL, behind another member, and as the first member"""
+    bad = b"bad\xff\xfename.txt"
+    n = 0
+    for fmt in ("pax", "paxr", "7zip", "zip", "xar", "iso9660", "gnutar", "ustar", "newc", "mtree"):
+        variants = [("alone", [ent(path=bad, size=3, body=b"abc")]),
+                    ("with an ACL", [ent(path=bad, size=3, body=b"abc", flags=16)]),
+                    ("behind another member", [ent(path=b"ok.txt", size=3, body=b"abc"), ent(path=bad, size=3, body=b"abc")]),
+                    ("behind an empty member", [ent(path=b"empty", size=0), ent(path=bad, size=3, body=b"abc")])]
+        lines = [case(fmt, es, loc=1) for _, es in variants]
+        rc, got, err = vlib.run_exe(exe, vlib.write_cases(lines, "c10-status.cases"), timeout=300, env=harness_env())
+        if rc != 0 or len(got) != len(lines):
+            continue
+        st = []
+        for (label, es), l in zip(variants, got):
+            w = vparse(l)[0]
+            st.append((label, w[1][-1][0]))        # header status of the last entry written
+            n += 1
+        worst = min(x for _, x in st)
+        for label, x in st:
+            if x > worst and x >= 0 and worst < 0:
+                rep.violation("C10:%s:status-lost" % fmt,
+                              "%s: the entry named %r gets header status %d %s, but %d %s: a warning about the same entry was lost" %
+                              (fmt, bad, x, label, worst, [l for l, y in st if y == worst][0]),
+                              dict(correspondence="fmt", case=lines[[l for l, _ in variants].index(label)], fmt=fmt, statuses=st), found_input=True)
+                break
+    return n
+
 def harness_env():
     return {"TMPDIR": vlib.scratch(), "TZ": "UTC"}
 
@@ -582,6 +612,7 @@ def run(rep):
     r = vlib.rng(rep.seed, "C10num")
     ncases = num_cases(r, 3000 if rep.tier == "quick" else 60000)
     stn = vlib.correspond(rep, "fmtnum", runner, exen, ncases)
+    stats["status_pairs"] = status_pairs(rep, exe)
     nontrivial = set((c[1]["fmt"], c[1]["field"], c[1]["desc"]) for c in cases if c[1]["field"] != "perm")
     rep.coverage.update(
         evaluations=stats["evaluations"] + len(ncases),
